@@ -50,21 +50,22 @@ def action(futures, flips=False, oversize=False, spaced=1, adds=True):
     return st.one_of(*kinds)
 
 
-def row(futures, flips=False, oversize=False, boundary=False, spaced=1, adds=True, max_points=3, busy=False):
+def row(futures, flips=False, oversize=False, boundary=False, spaced=1, adds=True, max_points=3, busy=False, resting=False):
     act = st.sampled_from((['none'] * (2 if busy else 5)) + ['long'] * 3 + (['short'] * 3 if futures else []))
     lad = ladder(oversize=oversize, spaced=spaced)
     a = action(futures, flips, oversize, spaced, adds)
     maybe = lambda s, p=3: st.one_of(*([st.none()] * p + [s]))
     return st.fixed_dictionaries(dict(
-        act=act, entry=entry_points(max_points, boundary=boundary),
+        act=act, entry=(st.one_of(entry_points(max_points, boundary=boundary), entry_points(2, offs=(25, 90))) if resting
+                        else entry_points(max_points, boundary=boundary)),
         shape=st.sampled_from(['list', 'list', 'tuple', 'lists']),
         exits_at=st.sampled_from(['go', 'open', 'open', 'none'] if futures else ['open', 'open', 'none']),
         sl=st.one_of(st.none(), lad), tp=st.one_of(st.none(), lad),
         upd=maybe(a, 4), on_red=maybe(a, 4), on_inc=maybe(a, 4),
-        cancel=st.sampled_from([True, True, True, False]),
+        cancel=st.sampled_from([True, False, False, False] if resting else [True, True, True, False]),
     ))
 
 
-def script(n_steps, futures, tick, unit, **kw):
+def script(n_steps, futures, tick, unit, cycle=False, **kw):
     return st.fixed_dictionaries(dict(rows=st.lists(row(futures, **kw), min_size=1, max_size=n_steps),
-                                      tick=st.just(tick), unit=st.just(unit)))
+                                      tick=st.just(tick), unit=st.just(unit), cycle=st.just(bool(cycle))))
